@@ -9,7 +9,7 @@ Definition sof_pptx : list Z := [192; 193; 194; 195; 197; 198; 199; 201; 202; 20
 Definition ctmap_pptx : list (str * str) := [((s "png"), (s "image/png")); ((s "jpg"), (s "image/jpeg")); ((s "jpeg"), (s "image/jpeg")); ((s "gif"), (s "image/gif")); ((s "bmp"), (s "image/bmp")); ((s "tiff"), (s "image/tiff")); ((s "tif"), (s "image/tiff")); ((s "emf"), (s "image/x-emf")); ((s "wmf"), (s "image/x-wmf"))].
 Definition sof_xlsx : list Z := [192; 193; 194; 195; 197; 198; 199; 201; 202; 203; 205; 206; 207]%Z.
 Definition ctmap_xlsx : list (str * str) := [((s "png"), (s "image/png")); ((s "jpg"), (s "image/jpeg")); ((s "jpeg"), (s "image/jpeg")); ((s "gif"), (s "image/gif")); ((s "bmp"), (s "image/bmp")); ((s "tiff"), (s "image/tiff")); ((s "tif"), (s "image/tiff")); ((s "emf"), (s "image/x-emf")); ((s "wmf"), (s "image/x-wmf"))].
-Definition resolver_sites : list (str * bool) := [((s "docx._extract_images_from_context"), true); ((s "pptx._normalize_relative_path"), true); ((s "pptx._process_slide_from_context"), true); ((s "xlsx._resolve_image_path"), true); ((s "xlsx._resolve_drawing_path"), true); ((s "epub.resolve_href"), true)].
+Definition resolver_sites : list (str * bool) := [((s "docx._extract_images_from_context"), true); ((s "pptx._normalize_relative_path"), true); ((s "pptx._process_slide_from_context"), true); ((s "xlsx._resolve_image_path"), true); ((s "xlsx._resolve_drawing_path"), true); ((s "epub.resolve_href"), true); ((s "odf._shared.odf_member_name"), true); ((s "odt._extract_images_from_context"), true); ((s "odp._extract_image"), true); ((s "ods._extract_images"), true); ((s "odg._extract_images"), true)].
 Definition sig_png : list Z := [137; 80; 78; 71; 13; 10; 26; 10]%Z.
 Definition sig_bmp : list Z := [66; 77]%Z.
 Definition sig_gif87 : list Z := [71; 73; 70; 56; 55; 97]%Z.
